@@ -155,6 +155,42 @@ Proof.
 Qed.
 Print Assumptions C21_unlocked_refuted.
 
+(* A plan drained while other threads deliver events: the local hosts are those of the state in which the plan was started
+   (after history evs0), the remote DC names are copied after evs1 more events, the remote buckets are read after evs2 more.
+   Every yielded host was live and LOCAL when the plan started or is live when the remote buckets are read; every host that was
+   live and LOCAL at the start is yielded, and so is every host that is REMOTE at the end and whose DC already had a live
+   host when the names were copied (local_dc not being re-inferred meanwhile).  No step can fail: the names come from a copy. *)
+Theorem C21_plan_during_events : forall (local used : Z) (contact : list Z) (e : env) (evs0 evs1 evs2 : list event) (h : Z),
+  delivered (evs0 ++ evs1 ++ evs2) ->
+  let run := fun evs => fold_left dca_step evs (dca_init local used contact e) in
+  let s0 := run evs0 in let s1 := run (evs0 ++ evs1) in let s2 := run (evs0 ++ evs1 ++ evs2) in
+  (In h (dca_plan3 s0 s1 s2) ->
+     (members evs0 h = true /\ dca_distance s0 h = LOCAL) \/ members (evs0 ++ evs1 ++ evs2) h = true) /\
+  (d_local s1 = d_local s2 ->
+     (members evs0 h = true /\ dca_distance s0 h = LOCAL) \/
+     (dca_distance s2 h = REMOTE /\ bget (d_live s1) (dca_dc s2 h) <> []) ->
+     In h (dca_plan3 s0 s1 s2)).
+Proof.
+  intros local used contact e evs0 evs1 evs2 h Hd run s0 s1 s2.
+  assert (Hpre : forall a b, delivered (a ++ b) -> delivered a).
+  { unfold delivered. intros a. generalize (fun _ : Z => false). induction a as [|x a IH]; intros L b H; simpl in *; auto.
+    destruct H as [H1 H2]. split; [exact H1|]. apply (IH _ b). exact H2. }
+  assert (H0 : dca_inv s0 (members evs0)) by (apply dca_inv_delivered; apply (Hpre _ _ Hd)).
+  assert (H2 : dca_inv s2 (members (evs0 ++ evs1 ++ evs2))) by (apply dca_inv_delivered; exact Hd).
+  split.
+  - apply (plan3_sound s0 s1 s2 _ _ h H0 H2).
+  - intros Hl Hc. apply (plan3_complete s0 s1 s2 _ _ h H0 H2 Hl Hc).
+Qed.
+Print Assumptions C21_plan_during_events.
+
+(* without the copy a whole DC entry appearing meanwhile (first host of DC 2 comes up) makes the plan fail after its local part *)
+Theorem C21_nocopy_refuted : exists (s1 : dca_state) (ev : event),
+  dca_plan3_nocopy s1 s1 (dca_step s1 ev) (dca_step s1 ev) = None /\ dca_plan3 s1 s1 (dca_step s1 ev) = [1].
+Proof.
+  exists (dca_step (dca_init 1 1 [] {| e_dc := [(1, 1); (2, 2)]; e_rack := [] |}) (Up 1)), (Up 2). vm_compute. split; reflexivity.
+Qed.
+Print Assumptions C21_nocopy_refuted.
+
 (* the hypotheses are satisfiable by a non-trivial history: three DCs interleaved in the initial list, a host without a
    datacenter, local_dc inferred late from contact point 1, a location change, a removal *)
 Example C21_nonvacuous :
